@@ -9,6 +9,8 @@ Tie
     and `GenLog.compute(model log)` vs the returned `log.activated_rails` (type, name, stop, action names);
     additionally `GenLog.compute` fed with the abstraction of the REAL processing log of the same run vs the returned log
     (type, name, stop, finished, decisions, actions with their LLM tasks, LLM call count);
+  * correspondence + oracle, kind "seq": 2-3 such calls on one conversation (carried `state` / message history) vs `PipelineOpts.session`
+    (calls are independent: `calls_independent`), every call judged by the same documented table;
   * correspondence, kind "log": the real `compute_generation_log` on synthetic processing logs (well-shaped and malformed)
     vs `GenLog.compute`.
 Oracle (from docs/user_guides/advanced/generation-options.md and the property text, independent of the Lean model):
@@ -28,6 +30,8 @@ RULE = ("e2e: every subset of {input, dialog, retrieval, output} (+ the call wit
         "0-1 retrieval rails (declared as flow or subflow, refusal or rails-exception mode, three dialog behaviours) x rule tables whose "
         "verdict (accept / reject / fault / append / replace) depends on the text a rail is shown x user / bot / LLM texts from a pool with the "
         "trigger words; thorough additionally enumerates all verdict tables over 5 verdicts for <= 2 rails per category for all 16 subsets. "
+        "seq: 2-3 generate calls with different option subsets on ONE conversation (70% carried `state`, 30% message history), a third of them "
+        "'call without output (often blocked), then calls with output + bot message'; the documented table is applied to every call. "
         "log: synthetic processing logs (rail segments finished / unfinished, dialog steps, ignored flows and actions, LLM infos) and a malformed "
         "stream (finish without start, action outside a rail, nested starts). non-trivial = e2e with at least one rail invoked or one LLM call, "
         "log with at least one rail start; distinct = distinct case JSON.")
@@ -62,8 +66,11 @@ def g_rule(rng, force=None):
     return [needle, v]
 
 
-def g_rail(rng):
-    return [g_rule(rng) for _ in range(rng.choice([0, 1, 1, 1, 2]))]
+def g_rail(rng, faults=True):
+    rules = [g_rule(rng) for _ in range(rng.choice([0, 1, 1, 1, 2]))]
+    if not faults:
+        rules = [[n, (["reject"] if v == ["fault"] else v)] for n, v in rules]
+    return rules
 
 
 def g_text(rng):
@@ -121,6 +128,45 @@ def gen_e2e(rng, tier):
                                    "dialog": "general" if (n_in + n_out) % 2 == 0 else "llm", "exceptions": False}
                             cases.append(mk_e2e(cfg, s, "hi", "bot says", "llm says"))
     cases.sort(key=lambda c: json.dumps(po._cfg_key(c["cfg"])))  # group by structural configuration (one LLMRails each)
+    return cases
+
+
+def mk_call(rng, opts):
+    bot = rng.choice([None, g_text(rng), g_text(rng)])
+    if opts is None or "dialog" in opts:
+        bot = None
+    elif "output" in opts and bot is None:
+        bot = g_text(rng)
+    llm_text = g_text(rng)
+    return {"opts": opts, "user": g_text(rng), "bot": bot, "llm_text": llm_text}
+
+
+def gen_seq(rng, tier):
+    """2-3 `generate` calls with different option subsets on ONE conversation (carried `state`, or the message history)."""
+    n = 400 if tier == "quick" else 8000
+    n_cfg = 16 if tier == "quick" else 80
+    cfgs = [g_cfg(rng, small=True) for _ in range(n_cfg)]
+    subs = list(subsets()) + [None]
+    no_out = [s for s in subs if s is not None and "output" not in s and "input" in s]
+    with_out = [s for s in subs if s is not None and "output" in s and "dialog" not in s]
+    cases = []
+    for k in range(n):
+        base = rng.choice(cfgs)
+        # no faulting rails here: what a fault (hide_prev_turn) does to LATER turns is C03's subject
+        cfg = dict(base, input=[g_rail(rng, faults=False) for _ in base["input"]], output=[g_rail(rng, faults=False) for _ in base["output"]])
+        via = "state" if rng.random() < 0.7 else "history"
+        ln = 2 if (via == "state" and rng.random() < 0.8) else rng.choice([2, 3])
+        r = rng.random()
+        if r < 0.35:
+            # the pattern the quantifier text singles out: a call without `output` (often blocked), then one with `output`
+            opts_seq = [rng.choice(no_out)] + [rng.choice(with_out) for _ in range(ln - 1)]
+        elif r < 0.5 and via == "history":
+            o = rng.choice(subs)
+            opts_seq = [o] * ln  # same options: the message-history cache hits
+        else:
+            opts_seq = [rng.choice(subs) for _ in range(ln)]
+        cases.append({"kind": "seq", "cfg": cfg, "via": via, "calls": [mk_call(rng, o) for o in opts_seq]})
+    cases.sort(key=lambda c: json.dumps(po._cfg_key(c["cfg"])))
     return cases
 
 
@@ -225,12 +271,12 @@ def gen_log_case(rng):
 
 def gen_cases(rng, tier):
     n_log = 3000 if tier == "quick" else 60000
-    return [gen_log_case(rng) for _ in range(n_log)] + gen_e2e(rng, tier)
+    return [gen_log_case(rng) for _ in range(n_log)] + gen_e2e(rng, tier) + gen_seq(rng, tier)
 
 
 def escalate(rng, case, tier):
     """focused search after a broken proof / tie / correspondence: the corpus-like table first, then fresh e2e and log cases"""
-    out = gen_e2e(rng, "quick") + gen_e2e(rng, "quick") + [gen_log_case(rng) for _ in range(4000)]
+    out = gen_seq(rng, "quick") + gen_e2e(rng, "quick") + gen_e2e(rng, "quick") + gen_seq(rng, "quick") + [gen_log_case(rng) for _ in range(4000)]
     if tier == "thorough":
         out += gen_e2e(rng, "thorough")
     return out
@@ -297,6 +343,8 @@ def run_impl(case):
         except Exception as e:  # noqa
             return {"res": "Other:" + type(e).__name__, "msg": str(e)[:200]}
     cfg = case["cfg"]
+    if case["kind"] == "seq":
+        return {"per_call": po.run_session(cfg, case["calls"], case["via"])}
     obs = po.run_turn_full(cfg, case["opts"], case["user"], case["bot"], case["llm_text"], no_options=case.get("no_options", False))
     return obs
 
@@ -316,7 +364,15 @@ def model_requests(case, obs):
     if case["kind"] == "log":
         return [{"m": "C16.genlog", "log": case["log"]}]
     cfg = case["cfg"]
-    reqs = [{"m": "C16.turn", "cfg": {"input": cfg["input"], "output": cfg["output"], "retrieval": cfg["retrieval"], "exceptions": bool(cfg.get("exceptions")), "refusal": po.REFUSAL},
+    mcfg = {"input": cfg["input"], "output": cfg["output"], "retrieval": cfg["retrieval"], "exceptions": bool(cfg.get("exceptions")), "refusal": po.REFUSAL}
+    if case["kind"] == "seq":
+        n = len(obs["per_call"])
+        reqs = [{"m": "C16.session", "cfg": mcfg, "calls": [{"opts": c["opts"] if c["opts"] is not None else list(CATS), "user": c["user"], "bot": c["bot"],
+                                                               "dialog": dialog_req(cfg, c["llm_text"])} for c in case["calls"][:n]]}]
+        for o in obs["per_call"]:
+            reqs.append({"m": "C16.genlog", "log": o.get("alog") or []})
+        return reqs
+    reqs = [{"m": "C16.turn", "cfg": mcfg,
              "opts": None if case.get("no_options") else (case["opts"] if case["opts"] is not None else list(CATS)), "user": case["user"], "bot": case["bot"], "dialog": dialog_req(cfg, case["llm_text"])}]
     if obs.get("alog") is not None:
         reqs.append({"m": "C16.genlog", "log": obs["alog"]})
@@ -351,6 +407,23 @@ def compare(case, obs, mouts):
             if m["llm_calls"] != obs["llm_calls"]:
                 return f"llm_calls_count impl {obs['llm_calls']} model {m['llm_calls']}"
         return None
+    if case["kind"] == "seq":
+        if m["res"] != "ok":
+            return f"model: {m['res']}"
+        for k, o in enumerate(obs["per_call"]):
+            d = _compare_e2e(call_case(case, k), o, m["calls"][k], mouts[1 + k])
+            if d:
+                return f"call #{k} (via {case['via']}): {d}"
+        return None
+    return _compare_e2e(case, obs, m, mouts[1] if len(mouts) > 1 else None)
+
+
+def call_case(case, k):
+    c = case["calls"][k]
+    return {"kind": "e2e", "cfg": case["cfg"], "opts": c["opts"], "no_options": False, "user": c["user"], "bot": c["bot"], "llm_text": c["llm_text"]}
+
+
+def _compare_e2e(case, obs, m, g2):
     if capped(obs):
         return None
     if "exc" in obs:
@@ -383,7 +456,6 @@ def compare(case, obs, mouts):
     if _rails_key(g["rails"], False) != _rails_key(obs["rails"], False):
         return f"activated rails (from the model's log) differ: impl {_rails_key(obs['rails'], False)} model {_rails_key(g['rails'], False)}"
     # generation log computed by the model from the REAL processing log: everything
-    g2 = mouts[1]
     if g2["res"] != "ok":
         return f"GenLog.compute on the real log: {g2['res']}"
     if _rails_key(g2["rails"], True) != _rails_key(obs["rails"], True):
@@ -449,7 +521,17 @@ def oracle(case, obs):
         if any(r["stop"] for r in obs["rails"] if r["type"] not in ("input", "output")):
             return "a dialog/generation rail is flagged stop"
         return None
-    # ---- e2e
+    if case["kind"] == "seq":
+        # the same documented table for every call of the conversation: an earlier call must not change a later one
+        for k, o in enumerate(obs["per_call"]):
+            d = _oracle_e2e(call_case(case, k), o)
+            if d:
+                return f"call #{k} of {len(case['calls'])} on one conversation (via {case['via']}, after calls with options {[c['opts'] for c in case['calls'][:k]]}): {d}"
+        return None
+    return _oracle_e2e(case, obs)
+
+
+def _oracle_e2e(case, obs):
     cfg = case["cfg"]
     if capped(obs):
         return None  # the runtime's safety cap (> 100 events in one turn) is outside the model; counted in the tags
@@ -525,12 +607,37 @@ def oracle(case, obs):
 
 
 def signature(case, obs, msg):
+    """Structural signatures of recorded findings.
+
+    `state-loses-earlier-calls`: a conversation driven through `generate(..., state=...)` whose FIRST deviating call is
+    the third or a later one, i.e. a call whose carried state was produced by a call that was itself given a state (that
+    state holds only the events of that one call).  A deviation in the first or second call never gets this signature."""
+    if case.get("kind") == "seq" and case.get("via") == "state":
+        for k, o in enumerate(obs.get("per_call", [])):
+            if _oracle_e2e(call_case(case, k), o) or "exc" in o:
+                return "state-loses-earlier-calls" if k >= 2 else None
+        m = __import__("re").search(r"call #(\d+)", msg or "")
+        if m and int(m.group(1)) >= 2:
+            return "state-loses-earlier-calls"
+    if case.get("kind") == "seq" and case.get("via") == "history":
+        # `history-hit-stale-bot-message`: the first deviating call repeats the options AND the supplied bot message of an
+        # earlier call (then its context message is part of the cached prefix and is not replayed)
+        calls = case["calls"]
+        for k, o in enumerate(obs.get("per_call", [])):
+            if _oracle_e2e(call_case(case, k), o) or "exc" in o:
+                c = calls[k]
+                if k >= 1 and c["bot"] is not None and c["opts"] is not None and "output" in c["opts"] and "dialog" not in c["opts"] and \
+                        any(calls[j]["opts"] == c["opts"] and calls[j]["bot"] == c["bot"] for j in range(k)):
+                    return "history-hit-stale-bot-message"
+                return None
     return None
 
 
 def nontrivial(case, obs):
     if case["kind"] == "log":
         return any(e[0] in ("in", "out") for e in case["log"])
+    if case["kind"] == "seq":
+        return len(obs["per_call"]) >= 2 and any(o.get("calls") or o.get("llm_calls", 0) > 0 for o in obs["per_call"])
     return not capped(obs) and (bool(obs.get("calls")) or obs.get("llm_calls", 0) > 0)
 
 
@@ -540,6 +647,18 @@ def tags(case, obs):
         if obs["res"] == "ok":
             t.append("stops:%d" % sum(1 for r in obs["rails"] if r["stop"]))
             t.append("rails:%d" % min(len(obs["rails"]), 6))
+        return t
+    if case["kind"] == "seq":
+        t = ["kind:seq", "via:" + case["via"], "seq-len:%d" % len(case["calls"]), "seq-ran:%d" % len(obs["per_call"])]
+        for k, o in enumerate(obs["per_call"]):
+            if k > 0 and o.get("response") == po.REFUSAL and any(r["stop"] for r in o.get("rails", [])):
+                t.append("later-call-blocked")
+            if "exc" in o:
+                t.append("seq-exc")
+        prev_block_unselected_out = any(("output" not in (c["opts"] if c["opts"] is not None else CATS)) and obs["per_call"][k].get("response") == po.REFUSAL
+                                        for k, c in enumerate(case["calls"][: len(obs["per_call"]) - 1]))
+        if prev_block_unselected_out:
+            t.append("refusal-with-output-deselected-then-more-calls")
         return t
     cfg = case["cfg"]
     sel = "noopt" if case.get("no_options") else ("default" if case["opts"] is None else "+".join(c[0] for c in case["opts"]) or "none")
@@ -571,12 +690,23 @@ def shrink(case):
             yield dict(case, log=ev[:i] + ev[i + 1:])
         return
     cfg = case["cfg"]
+    if case["kind"] == "seq":
+        calls = case["calls"]
+        for i in range(len(calls)):
+            if len(calls) > 1:
+                yield dict(case, calls=calls[:i] + calls[i + 1:])
+        for i, c in enumerate(calls):
+            for k in ("user", "bot", "llm_text"):
+                if c.get(k) and len(c[k]) > 2 and " " in c[k]:
+                    yield dict(case, calls=calls[:i] + [dict(c, **{k: c[k].split(" ")[0] or "q"})] + calls[i + 1:])
     for cat in ("input", "output", "retrieval"):
         for i in range(len(cfg[cat])):
             yield dict(case, cfg=dict(cfg, **{cat: cfg[cat][:i] + cfg[cat][i + 1:]}))
         for i, rules in enumerate(cfg[cat]):
             for j in range(len(rules)):
                 yield dict(case, cfg=dict(cfg, **{cat: cfg[cat][:i] + [rules[:j] + rules[j + 1:]] + cfg[cat][i + 1:]}))
+    if case["kind"] == "seq":
+        return
     for k in ("user", "bot", "llm_text"):
         if case.get(k) and len(case[k]) > 2:
             yield dict(case, **{k: case[k].split(" ")[0] or "q"})
